@@ -136,6 +136,12 @@ func vfC22ProbeList() []vfProbe {
 				w := func(n int) *vfNode { return vfWhere(vfT("t"), vfOp("is", vfColRef("a"), vfConst(vfInt(n)))) }
 				return vfBin("leftjoin", vfT("x"), vfBin("union", w(1), w(2)))
 			}},
+		{"where-or-empty-range", // t where a > 1 or (a > 5 and a < 5) => both rows (the second operand selects nothing)
+			[]*vfTable{tk("t", vfInts(1, 3), vfInts(2, 7))},
+			func() *vfNode {
+				rng := vfOp("and", vfOp("gt", vfColRef("a"), vfConst(vfInt(5))), vfOp("lt", vfColRef("a"), vfConst(vfInt(5))))
+				return vfWhere(vfT("t"), vfOp("or", vfOp("gt", vfColRef("a"), vfConst(vfInt(1))), rng))
+			}},
 		// a few healthy ones: documented examples in small
 		{"leftjoin-where-right-is-empty", // rows without partner have "" on the right: where z is "" keeps exactly them
 			[]*vfTable{tk("t", vfInts(1, 5), vfInts(2, 6)), vfMkTable("u", vfNums("k", "z"), [][]string{{"k"}}, nil, vfInts(2, 1))},
@@ -166,6 +172,9 @@ func vfC22Probes(rep *vk.Report, th *Thread) {
 			n.cols, n.printBy = []string{"h"}, true
 			return n
 		}})
+	probes = append(probes, vfProbe{"sort-negative-decimals", []*vfTable{ // t sort a with a = -97.5, -97, -98
+		vfMkTable("t", vfNums("k", "a"), [][]string{{"k"}}, nil, []vfLit{vfInt(1), vfDec("-97.5")}, []vfLit{vfInt(2), vfInt(-97)}, []vfLit{vfInt(3), vfInt(-98)})},
+		func() *vfNode { return vfT("t") }})
 	for i, p := range probes {
 		d := &vfDB{tables: p.tables}
 		d.create(vk.RandFor(2201, i))
@@ -174,6 +183,9 @@ func vfC22Probes(rep *vk.Report, th *Thread) {
 		q := &vfQuery{root: root}
 		if p.name == "semijoin-by-sort" {
 			q.sort = []string{"e"}
+		}
+		if p.name == "sort-negative-decimals" {
+			q.sort = []string{"a"}
 		}
 		vfC22Check(rep, d, -1-i, -1-i, q, vk.RandFor(2202, i), 10, th)
 		d.close()
